@@ -1,7 +1,7 @@
 (* Prop_C26.v -- C26: repair DCOP constraints and candidate info encode the repair rules.
    Only statements; each closed by an exact lemma from P_Repair.  All statements hold for any
    number of agents, computations, replicas, neighbours and any assignment. *)
-From PyDcop Require Import Base M_Repair P_Repair.
+From PyDcop Require Import Base M_Repair P_Repair M_Repair2 P_Repair2.
 From Coq Require Import Permutation.
 
 (* ---- candidate information (removal.py) ---- *)
@@ -128,6 +128,90 @@ Theorem comm_scope_exact : forall agt cand cands fixed cn comm bv rel,
     bv_name (cand, agt) bv = Ok n \/
     exists v agts va, In (v, agts) cn /\ In va agts /\ bv_name (v, va) bv = Ok n.
 Proof. exact comm_scope_exact. Qed.
+
+(* ---- deepening: the whole repair DCOP, assembled as ResilientAgent.setup_repair does ---- *)
+
+(* The repair DCOP = for every candidate agent a, the constraints setup_repair builds from the
+   repair info RI a it received (M_Repair2.setup_repair: hosted_c for each candidate computation,
+   capacity_a, hosting_a, comm_{a,c}), over the binary variables x_{c,a} (c orphaned, a candidate
+   of c; all_binvars).  For ANY departed set, discovery state, computation graph, agent
+   parameters and binary assignment x, provided create_binary_variables gave distinct names:
+     * the DCOP can be built and every constraint evaluates without error;
+     * the sum h of the HARD constraints (hosted, capacity) is 0 iff x encodes a valid
+       rehosting: every orphaned computation that still has a candidate is selected by exactly
+       one of its candidates, and on every candidate agent the footprints of the computations
+       it selects fit its remaining capacity (otherwise h >= 10000);
+     * and then the sum s of the SOFT constraints is the hosting + communication cost of that
+       rehosting (rehosting_cost: per receiving agent and received computation, its hosting
+       cost plus the communication cost to every neighbour at its old or new host).
+   This is the bridge C27 needs between "repair DCOP solved at cost < 10000" and "valid
+   rehosting". *)
+Theorem repair_dcop_zero_iff_valid :
+  forall departed g d (P : string -> aparams) (x : bkey -> Z) agents (RI : string -> list (string * info)),
+  let orph := dedup (orphaned departed d) in
+  let cand := cand_of departed d in
+  candidate_agents departed d = Ok agents ->
+  (forall a, In a agents -> candidate_agt_info a departed g d = Ok (RI a)) ->
+  NoDup (map snd (all_binvars orph cand)) ->
+  binary_on (all_binvars orph cand) x ->
+  exists ds h s, repair_dcop agents RI P = Ok ds /\
+    hard_cost (all_binvars orph cand) x ds = Ok h /\
+    soft_cost (all_binvars orph cand) x ds = Ok s /\
+    0 <= h /\ (h = 0 <-> valid agents orph cand RI P x) /\
+    (h = 0 -> s = rehosting_cost agents cand RI P x).
+Proof. exact repair_dcop_zero_iff_valid_l2. Qed.
+
+(* the same for any family of repair infos that is consistent with a candidate relation (not
+   only the one computed by removal.py): what the proof actually uses *)
+Theorem repair_dcop_zero_iff_valid_abstract :
+  forall agents orph cand (RI : string -> list (string * info)) (P : string -> aparams) (x : bkey -> Z),
+  NoDup (map snd (all_binvars orph cand)) ->
+  (forall c, In c orph -> NoDup (cand c)) ->
+  (forall a, In a agents -> NoDup (map fst (RI a))) ->
+  (forall a c, In a agents -> (In c (map fst (RI a)) <-> In c orph /\ In a (cand c))) ->
+  (forall a c cs fx cn, In a agents -> In (c, (cs, fx, cn)) (RI a) ->
+     cs = cand c /\ forall n l, In (n, l) cn -> In n orph /\ l = cand n) ->
+  (forall c a, In c orph -> In a (cand c) -> In a agents) ->
+  binary_on (all_binvars orph cand) x ->
+  exists ds h s, repair_dcop agents RI P = Ok ds /\
+    hard_cost (all_binvars orph cand) x ds = Ok h /\
+    soft_cost (all_binvars orph cand) x ds = Ok s /\
+    0 <= h /\ (h = 0 <-> valid agents orph cand RI P x) /\
+    (h = 0 -> s = rehosting_cost agents cand RI P x).
+Proof. exact repair_dcop_cost_of_rehosting_l. Qed.
+
+(* the soft part is, for every binary x (valid or not), the sum of the defining sums *)
+Theorem repair_dcop_soft_is_sum :
+  forall agents orph cand (RI : string -> list (string * info)) (P : string -> aparams) (x : bkey -> Z),
+  NoDup (map snd (all_binvars orph cand)) ->
+  (forall c, In c orph -> NoDup (cand c)) ->
+  (forall a, In a agents -> NoDup (map fst (RI a))) ->
+  (forall a c, In a agents -> (In c (map fst (RI a)) <-> In c orph /\ In a (cand c))) ->
+  (forall a c cs fx cn, In a agents -> In (c, (cs, fx, cn)) (RI a) ->
+     cs = cand c /\ forall n l, In (n, l) cn -> In n orph /\ l = cand n) ->
+  (forall c a, In c orph -> In a (cand c) -> In a agents) ->
+  binary_on (all_binvars orph cand) x ->
+  exists ds h, repair_dcop agents RI P = Ok ds /\
+    hard_cost (all_binvars orph cand) x ds = Ok h /\
+    soft_cost (all_binvars orph cand) x ds = Ok (soft_total agents RI P x) /\
+    0 <= h /\ (h = 0 <-> valid agents orph cand RI P x).
+Proof. exact repair_dcop_zero_iff_valid_l. Qed.
+
+(* non-vacuity of the bridge on the same 3x2 grid: c1 -> a2, c4 -> a5 is valid (hard 0, soft
+   = 10 + 3 hosting + 7 + 7 communication); both on a2 overflows a2's capacity *)
+Example c26_repair_dcop_nonvacuous :
+  let gb := all_binvars ["c1"; "c4"]%string (cand_of ["a1"; "a4"]%string ex_d) in
+  candidate_agents ["a1"; "a4"]%string ex_d = Ok ["a2"; "a5"]%string /\
+  NoDup (map snd gb) /\
+  exists ds, repair_dcop ["a2"; "a5"]%string ex_RI ex_P = Ok ds /\
+    hard_cost gb ex_x ds = Ok 0 /\ soft_cost gb ex_x ds = Ok 27 /\
+    rehosting_cost ["a2"; "a5"]%string (cand_of ["a1"; "a4"]%string ex_d) ex_RI ex_P ex_x = 27 /\
+    hard_cost gb ex_bad ds = Ok 10000.
+Proof.
+  vm_compute. split; [reflexivity|]. split.
+  - repeat constructor; simpl; intuition discriminate.
+  - eexists. split; [reflexivity|]. repeat split; reflexivity.
+Qed.
 
 (* non-vacuity: the 3x2 grid of tests/unit/test_reparation_removal.py, agents a1 and a4 leave *)
 Open Scope string_scope.
